@@ -23,7 +23,8 @@ def to_trace(steps):
                 ok = rest.startswith('M' if side == 'c' else 'm') and d
                 evs.append({'e': side + 'msg', 'n': int(d) if ok else 0, 'tok': rest})
         tr.append({'op': st['op'], 'a': {'acc': st['a'].get('acc', [])}, 'ev': evs,
-                   'cup': st['cup'], 'sup': st['sup'], 'ctr': st['ctr'], 'str': st['str']})
+                   'cup': st['cup'], 'sup': st['sup'], 'ctr': st['ctr'], 'str': st['str'],
+                   'settled': st.get('settled', True)})
     return tr
 
 
@@ -48,6 +49,37 @@ def conversations(seed, n, th):
                 sc.append({'op': rng.choice(['csend', 'ssend']), 'k': 2})
         t += 400
         sc.append({'op': 'tick', 't': t})
+        out.append(sc)
+    return out
+
+
+def slow_conversations(seed, n):
+    rng = random.Random(seed)
+    out = []
+    for i in range(n):
+        tr = ('both', 'ws', 'both')[i % 3]
+        sc = [{'op': 'connect', 'tr': tr}]
+        t = 0
+        for _ in range(rng.randint(4, 10)):
+            k = rng.choice(['tick', 'tick', 'csend', 'ssend', 'tick'])
+            if k == 'tick':
+                t += rng.choice([1, 1, 2, 3, 5])
+                sc.append({'op': 'tick', 't': t})
+            else:
+                sc.append({'op': k, 'k': rng.choice([1, 2, 3])})
+        t += 20
+        sc.append({'op': 'tick', 't': t})
+        sc.append({'op': 'ssend', 'k': 2})
+        sc.append({'op': 'csend', 'k': 2})
+        t += 300
+        sc.append({'op': 'tick', 't': t})          # many heartbeat cycles of idleness
+        sc.append({'op': 'ssend', 'k': 1})
+        t += 20
+        sc.append({'op': 'tick', 't': t})
+        if i % 2:
+            sc.append({'op': rng.choice(['cdisc', 'sdisc'])})
+            t += 300
+            sc.append({'op': 'tick', 't': t})
         out.append(sc)
     return out
 
@@ -80,6 +112,20 @@ def run(tier):
                     metas.append({'pair': facts['pair'], 'transports': tr0, 'hb': [pi, pt],
                                   'script': sc})
                     ck.distinct([facts['pair'], tr0, pi, pt, [(o['op'], o.get('k'), o.get('t')) for o in sc]])
+                    if facts['client_calls_blocked']:
+                        blocked.append((metas[-1], facts['client_calls_blocked']))
+    # slow network: websocket frames spend 1-3 ticks on the wire, so that the upgrade handshake
+    # overlaps heartbeat deadlines, sends and the clock
+    for cimpl in ('sync', 'async'):
+        for simpl in ('sync', 'async'):
+            for lat, (pi, pt) in ((1, (4, 4)), (2, (4, 8)), (3, (8, 8))):
+                for k, sc in enumerate(slow_conversations(seed + lat, 6 if not th else 16)):
+                    scfg = {'ping_interval': pi, 'ping_timeout': pt, 'monitor': k % 2 == 0}
+                    steps, facts = e2e.run_conversation(cimpl, simpl, scfg, sc, seed=seed, latency=lat)
+                    traces.append(to_trace(steps))
+                    metas.append({'pair': facts['pair'], 'transports': sc[0]['tr'], 'hb': [pi, pt],
+                                  'latency': lat, 'script': sc})
+                    ck.distinct([facts['pair'], 'slow', lat, pi, pt, k])
                     if facts['client_calls_blocked']:
                         blocked.append((metas[-1], facts['client_calls_blocked']))
     v = tracecheck.validate('EioE2ETrace', traces, constants={'MaxMsg': 100000}, batch=400)
@@ -147,7 +193,7 @@ def explain(tr):
         if cup != st['cup'] or sup != st['sup']:
             return 'step %d (%s): connection bits client %s/%s server %s/%s' % (
                 li, st['op'], cup, st['cup'], sup, st['sup'])
-        if cup and sup and (cr != ss or sr != cs or st['ctr'] != st['str']):
+        if cup and sup and st.get('settled', True) and (cr != ss or sr != cs or st['ctr'] != st['str']):
             return 'step %d (%s): at quiescence client has %d of %d, server has %d of %d, transports %s/%s' % (
                 li, st['op'], cr, ss, sr, cs, st['ctr'], st['str'])
         if not asked and (cd or sd):
@@ -164,7 +210,8 @@ def replay(path):
     cimpl = m['pair'].split('-client/')[0]
     simpl = m['pair'].split('/')[1].split('-server')[0]
     steps, facts = e2e.run_conversation(cimpl, simpl, {'ping_interval': m['hb'][0],
-                                                        'ping_timeout': m['hb'][1]}, m['script'])
+                                                        'ping_timeout': m['hb'][1]}, m['script'],
+                                        latency=m.get('latency', 0))
     tr = to_trace(steps)
     v = tracecheck.validate('EioE2ETrace', [tr], constants={'MaxMsg': 100000})
     if v.accepted:
